@@ -1,14 +1,16 @@
 /-
-Reading a `DiskX` disk: `recoverPre` succeeds; the recovered log satisfies the relaxed invariant
-(with explicit witnesses) for the journal re-attributed the way the reader attributes the
-entries; its queues are the replay of the old journal up to the file handles.
+Reading a `DiskX` disk (a tape of items, possibly with a residue): `recoverPre` succeeds; the
+recovered log satisfies the relaxed invariant (with explicit witnesses) for the journal
+re-attributed the way the reader attributes the entries; its queues are the replay of the old
+journal up to the file handles.
 -/
 import MRL.Proofs.LCut
+import MRL.Proofs.LScanJ
 import MRL.Proofs.GReadLog
 import MRL.Proofs.RecReplay
 
 namespace MRL.L
-open MRL Codec Consts G H Log Buf
+open MRL Codec Consts G H Log Buf Torn
 
 theorem All2.map_right {α β γ : Type} {R : α → γ → Prop} (f : β → γ) : ∀ {l1 : List α} {l2 : List β},
     All2 (fun a b => R a (f b)) l1 l2 → All2 R l1 (l2.map f) := by
@@ -95,26 +97,31 @@ theorem recoverPre_scanX (g : Geom) (F : Nat) (cs : List Bytes) (hne : cs ≠ []
   rw [Rec.recoverPre_cons g X policy none _ _ trail hbo', hio]
   simp only [ioFails, Bool.false_eq_true, if_false, Rec.finishPre, hb0, hreplay, hprep]
 
-/-- reassembling the frames of a `SegsX` tape read from its first file -/
-theorem asm_segsX (g : Geom) (F : Nat) (afs : List TFrm) (htag : Tagged g F 0 afs)
-    (lead : List TFrm) (gs : List Grp) (hafs : afs = lead ++ gs.flatMap (·.2))
-    (hlead : ∀ a ∈ lead, a.2.1.isFirst = false) (hok : ∀ y ∈ gs, GrpOK y) (tail : List RdEv) :
-    ∃ (gs' : List Grp) (st' : AsmSt), gs'.flatMap (·.2) = gs.flatMap (·.2) ∧ (∀ y ∈ gs', GrpOK y) ∧
+/-- reassembling the items of a `SegsX` tape read from its first file -/
+theorem asm_segsX (g : Geom) (F : Nat) (ais : List AItm) (htag : Tagged g F 0 (tfs ais))
+    (lead : List AItm) (gs : List Grp) (hais : ais = lead ++ gs.flatMap (·.2))
+    (hlead : ∀ a ∈ lead, a.2 = none ∧ a.1.2.1.isFirst = false) (hok : ∀ y ∈ gs, GrpOK y) (tail : List RdEv) :
+    ∃ (gs' : List Grp) (st' : AsmSt) (R : List RecEv), gs'.flatMap (·.2) = gs.flatMap (·.2) ∧ (∀ y ∈ gs', GrpOK y) ∧
       All2 (ReAttr F) ((liveOf gs').map (·.1)) (liveOf gs) ∧
-      assemble { within := false, buf := [], attr := F } (evsOf afs ++ tail) =
-        entriesEv ((liveOf gs').map (·.1)) ++ assemble st' tail := by
-  have hmono := tags_mono g F afs 0 htag
-  rw [hafs] at hmono
+      assemble { within := false, buf := [], attr := F } (evsJ ais ++ tail) = R ++ assemble st' tail ∧
+      entriesOf R = entriesEv ((liveOf gs').map (·.1)) := by
+  have hmono := tags_mono g F (tfs ais) 0 htag
+  rw [hais, tfs_append] at hmono
   have hmono2 := (List.pairwise_append.mp hmono).2.1
-  obtain ⟨gs', st', g1, g2, g3, g4⟩ := asm_groups F gs { within := false, buf := [], attr := F } tail hok hmono2
+  obtain ⟨gs', st', R, g1, g2, g3, g4, g5⟩ := asm_groups F gs { within := false, buf := [], attr := F } tail hok hmono2
     (by
       intro a ha
-      obtain ⟨h, _, _, h3⟩ := tag_pos g F afs 0 htag a (by rw [hafs]; exact List.mem_append_right _ ha)
+      obtain ⟨h, _, _, h3⟩ := tag_pos g F (tfs ais) 0 htag a (by rw [hais, tfs_append]; exact List.mem_append_right _ ha)
       show F ≤ a.1
       rw [h3]; exact Nat.le_add_right _ _)
     (Nat.le_refl _)
-  refine ⟨gs', st', g1, g2, g3, ?_⟩
-  rw [hafs, evsOf_append, List.append_assoc, assemble_lead _ rfl lead _ hlead, g4]
+  refine ⟨gs', st', R, g1, g2, g3, ?_, g5⟩
+  have hl : evsJ lead = evsOf (tfs lead) := evsJ_none (fun a ha => (hlead a ha).1)
+  rw [hais, evsJ_append, List.append_assoc, hl,
+    assemble_lead _ rfl (tfs lead) _ (by
+      intro a ha
+      obtain ⟨b, hb, rfl⟩ := List.mem_map.mp ha
+      exact (hlead b hb).2), g4]
 
 theorem drop_append_ge {α : Type} (A B : List α) (n : Nat) (h : A.length ≤ n) :
     (A ++ B).drop n = B.drop (n - A.length) := by
@@ -124,39 +131,123 @@ theorem take_append_ge {α : Type} (A B : List α) (n : Nat) (h : A.length ≤ n
     (A ++ B).take n = A ++ B.take (n - A.length) := by
   rw [List.take_append, List.take_of_length_le h]
 
+/-- the scan of a `DiskX` stream: the events, where the reader ends, what lies before and after -/
+theorem scan_diskX (g : Geom) (hB : g.B ≤ 65542) (F : Nat) (cs : List Bytes) (hne : cs ≠ [])
+    (hfull : ∀ c ∈ cs, c.length = g.fileBytes) (ais : List AItm) (res : Bytes) (z0 z1 : Nat)
+    (hflat : cs.flatten = flatJ g 0 ais ++ zeros z0 ++ res ++ zeros z1)
+    (hfits : Fits g 0 (frs ais)) (htag : Tagged g F 0 (tfs ais)) (hjok : JOK g (cs.length * g.fileBytes) 0 ais)
+    (hlast : (cs.length - 1) * g.fileBytes ≤ hdrPos g (endPos g 0 (frs ais)))
+    (hres : ResOK g (cs.length * g.fileBytes) (endPos g 0 (frs ais) + z0) (endPos g 0 (frs ais)) res) :
+    ∃ (evT : List RdEv) (e : EndPos) (ke ce zz : Nat),
+      scanAt g F cs.flatten (cs.length * g.K) 0 0 = (evsJ ais ++ evT, e) ∧
+      (evT = [] ∨ ∃ f, evT = [RdEv.corrupt f]) ∧
+      e = ⟨F + ke / g.K, ke % g.K, ce⟩ ∧ ke < cs.length * g.K ∧
+      (ce < g.B ∨ (ce = g.B ∧ ke + 1 = cs.length * g.K)) ∧
+      endPos g 0 (frs ais) ≤ ke * g.B + ce ∧ (cs.length - 1) * g.fileBytes ≤ ke * g.B + ce ∧
+      ke * g.B + ce + res.length ≤ cs.length * g.fileBytes ∧
+      (ke * g.B + ce = endPos g 0 (frs ais) ∨ ke * g.B + ce = hdrPos g (endPos g 0 (frs ais))) ∧
+      cs.flatten.drop (ke * g.B + ce) = res ++ zeros zz ∧
+      cs.flatten.take (ke * g.B + ce) = flatJ g 0 ais ++ zeros (ke * g.B + ce - endPos g 0 (frs ais)) ∧
+      ResOK g (cs.length * g.fileBytes) (ke * g.B + ce) (endPos g 0 (frs ais)) res := by
+  have hB7 := G.Bpos g
+  have hfb := fileBytes_pos g
+  have hBfb := B_le_fileBytes g
+  have hE : (flatJ g 0 ais).length = endPos g 0 (frs ais) := flatJ0_len g ais hjok.rawLen hfits
+  have hSlen : cs.flatten.length = cs.length * g.K * g.B := by
+    rw [flatten_length_full _ _ hfull, mul_fb]
+  have hNpos : 0 < cs.length * g.K := Nat.mul_pos (List.length_pos_iff.mpr hne) g.hK
+  have hNB : cs.length * g.K * g.B = cs.length * g.fileBytes := (mul_fb g _).symm
+  have hjok' : JOK g (cs.length * g.K * g.B) 0 ais := by rw [hNB]; exact hjok
+  have hlens : endPos g 0 (frs ais) + z0 + res.length + z1 = cs.length * g.fileBytes := by
+    have := congrArg List.length hflat
+    rw [hSlen, hNB] at this
+    simp only [List.length_append, length_zeros, hE] at this
+    omega
+  have hhle := le_hdrPos g (endPos g 0 (frs ais))
+  obtain ⟨a, ha⟩ : ∃ a, cs.length = a + 1 := ⟨cs.length - 1, by have := List.length_pos_iff.mpr hne; omega⟩
+  rcases hres with hr | ⟨r1, r2, r3, r4⟩
+  · -- no residue
+    subst hr
+    have hflat' : cs.flatten = flatJ g 0 ais ++ zeros (z0 + z1) := by
+      rw [hflat, zeros_add]; simp
+    obtain ⟨e, hscan, hend⟩ := readS_layoutJ g hB F cs.flatten (cs.length * g.K) hSlen hNpos ais hfits hjok' htag _ hflat'
+    obtain ⟨ke, ce, he, hke, hce, hW⟩ := hend
+    have hWf : endPos g 0 (frs ais) ≤ ke * g.B + ce ∧ (cs.length - 1) * g.fileBytes ≤ ke * g.B + ce ∧
+        ke * g.B + ce ≤ cs.length * g.fileBytes ∧
+        (ke * g.B + ce = endPos g 0 (frs ais) ∨ ke * g.B + ce = hdrPos g (endPos g 0 (frs ais))) := by
+      rw [hW]
+      by_cases hc : g.B - endPos g 0 (frs ais) % g.B < 7 ∧
+          hdrPos g (endPos g 0 (frs ais)) < cs.length * g.K * g.B
+      · rw [if_pos hc]
+        exact ⟨hhle, hlast, by omega, Or.inr rfl⟩
+      · rw [if_neg hc]
+        refine ⟨Nat.le_refl _, ?_, by omega, Or.inl rfl⟩
+        by_cases h7 : g.B - endPos g 0 (frs ais) % g.B < 7
+        · have hge : cs.length * g.K * g.B ≤ hdrPos g (endPos g 0 (frs ais)) := by
+            apply Classical.byContradiction
+            intro hn; exact hc ⟨h7, by omega⟩
+          have hmod : endPos g 0 (frs ais) % g.B < g.B := Nat.mod_lt _ (by omega)
+          unfold hdrPos at hge
+          rw [if_pos h7] at hge
+          rw [ha, Nat.add_sub_cancel] at hlast ⊢
+          rw [hNB, ha, Nat.add_mul, Nat.one_mul] at hge
+          omega
+        · have : hdrPos g (endPos g 0 (frs ais)) = endPos g 0 (frs ais) := by
+            unfold hdrPos; rw [if_neg h7]
+          omega
+    obtain ⟨w0, w1, w2, w3⟩ := hWf
+    refine ⟨[], e, ke, ce, z0 + z1 - (ke * g.B + ce - endPos g 0 (frs ais)), by simpa using hscan, Or.inl rfl, he, hke,
+      hce, w0, w1, by simpa using w2, w3, ?_, ?_, Or.inl rfl⟩
+    · rw [hflat', drop_append_ge _ _ _ (by rw [hE]; exact w0), hE, drop_zeros]; rfl
+    · rw [hflat', take_append_ge _ _ _ (by rw [hE]; exact w0), hE, take_zeros]
+      congr 2
+      have hl2 : endPos g 0 (frs ais) + z0 + z1 = cs.length * g.fileBytes := by simpa using hlens
+      omega
+  · -- a residue in the last block
+    have hz0 : z0 = hdrPos g (endPos g 0 (frs ais)) - endPos g 0 (frs ais) := by omega
+    have hflat' : cs.flatten = flatJ g 0 ais ++ zeros (hdrPos g (endPos g 0 (frs ais)) - endPos g 0 (frs ais)) ++
+        res ++ zeros z1 := by rw [hflat, hz0]
+    obtain ⟨ke, ce, hpos, hke, hce, hscan⟩ := readS_layoutJ_res g hB F cs.flatten (cs.length * g.K) hSlen hNpos ais
+      hfits hjok' htag res r1 r2 z1 hflat' (by rw [hNB, ← r3]; exact r4)
+    have hlen0 : (flatJ g 0 ais ++ zeros (hdrPos g (endPos g 0 (frs ais)) - endPos g 0 (frs ais))).length =
+        hdrPos g (endPos g 0 (frs ais)) := by
+      rw [List.length_append, length_zeros, hE]; omega
+    refine ⟨[RdEv.corrupt (F + ke / g.K)], _, ke, ce, z1, hscan, Or.inr ⟨_, rfl⟩, rfl, hke, Or.inl hce, by omega,
+      by omega, by omega, Or.inr hpos, ?_, ?_, ?_⟩
+    · rw [hpos, hflat', List.append_assoc (flatJ g 0 ais ++ _)]
+      exact List.drop_left' hlen0
+    · rw [hpos, hflat', List.append_assoc (flatJ g 0 ais ++ _)]
+      exact List.take_left' hlen0
+    · rw [hpos]
+      exact Or.inr ⟨r1, r2, rfl, by rw [← r3]; exact r4⟩
+
 /-- **reading a `DiskX` disk** -/
 theorem read_diskX (g : Geom) (hB : g.B ≤ 65542) {X : Image} {F : Nat} {J : List JE}
     (hd : DiskX g X F J) (hwf : ∀ j ∈ J, C07.WF j.e) (qs : MemQueues)
     (hrep : replayJ F [] J = some qs) (policy : Policy) :
-    ∃ (J' : List JE) (lp : Log) (io : Nat) (init : List Bytes) (t : Bytes) (x : Bool) (afs lead : List TFrm)
-      (gs' : List Grp),
+    ∃ (J' : List JE) (lp : Log) (io : Nat) (init : List Bytes) (t : Bytes) (x : Bool) (res : Bytes)
+      (ais lead : List AItm) (gs' : List Grp),
       recoverPre g X policy none = .ok (lp, [.ensureLen F g.fileBytes], io) ∧
-      XInvX g lp X F J' init t x afs lead gs' ∧
+      XInvX g lp X F J' init t x res ais lead gs' ∧
       replayJ F [] J' = some lp.queues ∧ AbsEq qs lp.queues ∧ lp.policy = policy ∧
       All2 (fun a b : JE => a.e = b.e ∧ a.loc = b.loc ∧ F ≤ a.attr ∧ a.attr ≤ a.loc) J'
         (J.filter fun j => decide (F ≤ j.loc)) ∧
       (∀ j ∈ J', j.loc ≤ lp.cur) := by
-  have hB7 := Bpos g
+  have hB7 := G.Bpos g
   have hfb := fileBytes_pos g
-  obtain ⟨cs, x, afs, hne, hfull, ⟨z, hflat⟩, hX, hlast, hfits, htag, lead, gs, hafs, hlead, hmap, hok⟩ := hd
-  have hE : (layoutBufs g 0 (untag afs)).flatten.length = endPos g 0 (untag afs) := layout0_len g _ hfits
-  have hSlen : cs.flatten.length = cs.length * g.K * g.B := by
-    rw [flatten_length_full _ _ hfull, mul_fb]
-  have hNpos : 0 < cs.length * g.K :=
-    Nat.mul_pos (List.length_pos_iff.mpr hne) g.hK
-  have hEz : endPos g 0 (untag afs) + z = cs.length * g.K * g.B := by
-    have := congrArg List.length hflat
-    rw [hSlen, List.length_append, hE, length_zeros] at this
-    omega
-  -- the scan
-  obtain ⟨e, hscan, hend⟩ := readS_layout g hB F cs.flatten (cs.length * g.K) hSlen (untag afs) 0 0 z
-    hNpos (by omega) hfits (by simpa using hflat)
-  simp only [Nat.zero_mul, Nat.zero_add] at hscan hend
-  rw [tagFrom_of_Tagged g F afs 0 htag] at hscan
-  have hscan' : scanAt g F cs.flatten (cs.length * g.K) 0 0 = (evsOf afs, e) := hscan
+  obtain ⟨cs, x, ais, res, z0, hne, hfull, ⟨z1, hflat⟩, hX, hlast, hfits, htag, hjok, hresok, lead, gs, hais, hlead,
+    hmap, hok⟩ := hd
+  have hE : (flatJ g 0 ais).length = endPos g 0 (frs ais) := flatJ0_len g ais hjok.rawLen hfits
+  obtain ⟨evT, e, ke, ce, zz, hscan, hevT, he, hke, hce, hW0, hW1, hWres, hW3, hdropW0, htakeW0, hresW⟩ :=
+    scan_diskX g hB F cs hne hfull ais res z0 z1 hflat hfits htag hjok hlast hresok
   -- reassembly
-  obtain ⟨gs', st', g1, g2, g3, g4⟩ := asm_segsX g F afs htag lead gs hafs hlead hok []
-  simp only [List.append_nil, assemble] at g4
+  obtain ⟨gs', st', R, g1, g2, g3, g4, g5⟩ := asm_segsX g F ais htag lead gs hais hlead hok evT
+  have htailR : ∃ Rt, assemble st' evT = Rt ∧ entriesOf Rt = [] := by
+    rcases hevT with h | ⟨f, h⟩
+    · subst h; exact ⟨[], rfl, rfl⟩
+    · subst h; exact ⟨[RecEv.corrupt], rfl, rfl⟩
+  obtain ⟨Rt, hRt, hRt0⟩ := htailR
+  rw [hRt] at g4
   -- the re-attributed journal
   have hJ'rel : All2 (fun a b : JE => a.e = b.e ∧ a.loc = b.loc ∧ F ≤ a.attr ∧ a.attr ≤ a.loc)
       ((liveOf gs').map (·.1)) (J.filter fun j => decide (F ≤ j.loc)) := by
@@ -167,46 +258,19 @@ theorem read_diskX (g : Geom) (hB : g.B ≤ 65542) {X : Image} {F : Nat} {J : Li
     intro j hj
     obtain ⟨b, hb, h1, _, h3, h4⟩ := hJ'rel.mem_left j hj
     exact ⟨by rw [h1]; exact hwf b (List.mem_filter.mp hb).1, h3, h4⟩
-  have hrepl : replay [] (entriesEv ((liveOf gs').map (·.1))) = replayJ F [] ((liveOf gs').map (·.1)) :=
-    replay_entriesEv F _ [] hJ'wf
+  have hrepl : replay [] (R ++ Rt) = replayJ F [] ((liveOf gs').map (·.1)) := by
+    rw [replay_entriesOf, entriesOf_append, g5, hRt0, List.append_nil]
+    exact replay_entriesEv F _ [] hJ'wf
   obtain ⟨r1, hr1, hab⟩ := replayJ_abs F ((liveOf gs').map (·.1)) (J.filter fun j => decide (F ≤ j.loc)) [] [] qs
     (hJ'rel.imp (fun a b h => h.1))
     (fun j hj => by have := hJ'wf j hj; omega)
     (fun j hj => by simpa using (List.mem_filter.mp hj).2)
     (AbsEq.refl _) QsWF.nil QsWF.nil (by rw [← replayJ_filter]; exact hrep)
-  obtain ⟨io, hrec⟩ := recoverPre_scanX g F cs hne hfull x X hX policy _ e r1 hscan' (by rw [g4, hrepl, hr1])
+  obtain ⟨io, hrec⟩ := recoverPre_scanX g F cs hne hfull x X hX policy _ e r1 hscan (by rw [g4, hrepl, hr1])
   -- the reader's end position
-  obtain ⟨ke, ce, he, hke, hce, hW⟩ := hend
-  have htot : totalLen (layoutBufs g 0 (untag afs)) = endPos g 0 (untag afs) := by rw [totalLen_eq, hE]
-  rw [htot] at hW
-  have hhle := le_hdrPos g (endPos g 0 (untag afs))
   obtain ⟨a, ha⟩ : ∃ a, cs.length = a + 1 := ⟨cs.length - 1, by have := List.length_pos_iff.mpr hne; omega⟩
-  have hNB : cs.length * g.K * g.B = (a + 1) * g.fileBytes := by rw [ha, mul_fb]
-  have hBfb := B_le_fileBytes g
-  rw [ha, Nat.add_sub_cancel] at hlast
-  have hWfacts : endPos g 0 (untag afs) ≤ ke * g.B + ce ∧ a * g.fileBytes ≤ ke * g.B + ce ∧
-      ke * g.B + ce ≤ (a + 1) * g.fileBytes ∧
-      (ke * g.B + ce = endPos g 0 (untag afs) ∨ ke * g.B + ce = hdrPos g (endPos g 0 (untag afs))) := by
-    rw [hW]
-    by_cases hc : g.B - endPos g 0 (untag afs) % g.B < 7 ∧
-        hdrPos g (endPos g 0 (untag afs)) < cs.length * g.K * g.B
-    · rw [if_pos hc]
-      exact ⟨hhle, hlast, by omega, Or.inr rfl⟩
-    · rw [if_neg hc]
-      refine ⟨Nat.le_refl _, ?_, by omega, Or.inl rfl⟩
-      by_cases h7 : g.B - endPos g 0 (untag afs) % g.B < 7
-      · have hge : cs.length * g.K * g.B ≤ hdrPos g (endPos g 0 (untag afs)) := by
-          apply Classical.byContradiction
-          intro hn; exact hc ⟨h7, by omega⟩
-        have hmod : endPos g 0 (untag afs) % g.B < g.B := Nat.mod_lt _ (by omega)
-        unfold hdrPos at hge
-        rw [if_pos h7] at hge
-        rw [Nat.add_mul, Nat.one_mul] at hNB
-        omega
-      · have : hdrPos g (endPos g 0 (untag afs)) = endPos g 0 (untag afs) := by
-          unfold hdrPos; rw [if_neg h7]
-        omega
-  obtain ⟨hW0, hW1, hW2, hW3⟩ := hWfacts
+  rw [ha, Nat.add_sub_cancel] at hW1
+  have hW2 : ke * g.B + ce ≤ (a + 1) * g.fileBytes := by rw [ha] at hWres; omega
   have hke' : ke < (a + 1) * g.K := by rw [← ha]; exact hke
   have hce' : ce < g.B ∨ (ce = g.B ∧ ke + 1 = (a + 1) * g.K) := by rw [← ha]; exact hce
   obtain ⟨hcur, hoff⟩ := end_decomp g a (ke * g.B + ce) ke ce hW1 hW2 hke' hce' rfl
@@ -220,38 +284,33 @@ theorem read_diskX (g : Geom) (hB : g.B ≤ 65542) {X : Image} {F : Nat} {J : Li
   have hflat2 : cs.flatten = cs.dropLast.flatten ++ cs.getLast hne := by
     conv => lhs; rw [hcsplit]
     simp
-  have ho_le : ke * g.B + ce - a * g.fileBytes ≤ g.fileBytes := by
-    rw [Nat.add_mul, Nat.one_mul] at hW2; omega
+  have ho_le : ke * g.B + ce - a * g.fileBytes + res.length ≤ g.fileBytes := by
+    rw [ha, Nat.add_mul, Nat.one_mul] at hWres; omega
   have hdropW : (cs.getLast hne).drop (ke * g.B + ce - a * g.fileBytes) =
-      zeros (g.fileBytes - (ke * g.B + ce - a * g.fileBytes)) := by
+      res ++ zeros (g.fileBytes - (ke * g.B + ce - a * g.fileBytes) - res.length) := by
     have h1 : cs.flatten.drop (ke * g.B + ce) = (cs.getLast hne).drop (ke * g.B + ce - a * g.fileBytes) := by
       rw [hflat2, drop_append_ge _ _ _ (by rw [hinitflat]; exact hW1), hinitflat]
-    have h2 : cs.flatten.drop (ke * g.B + ce) = zeros (z - (ke * g.B + ce - endPos g 0 (untag afs))) := by
-      rw [hflat, drop_append_ge _ _ _ (by rw [hE]; exact hW0), hE, drop_zeros]
-    rw [← h1, h2]
-    congr 1
-    rw [Nat.add_mul, Nat.one_mul] at hNB
+    rw [← h1, hdropW0]
+    congr 2
+    have := congrArg List.length hdropW0
+    rw [List.length_drop, flatten_length_full _ _ hfull, ha, List.length_append, length_zeros] at this
+    rw [Nat.add_mul, Nat.one_mul] at this
     omega
   have htakeW : cs.dropLast.flatten ++ (cs.getLast hne).take (ke * g.B + ce - a * g.fileBytes) =
-      (layoutBufs g 0 (untag afs)).flatten ++ zeros (ke * g.B + ce - endPos g 0 (untag afs)) := by
+      flatJ g 0 ais ++ zeros (ke * g.B + ce - endPos g 0 (frs ais)) := by
     have h1 : cs.flatten.take (ke * g.B + ce) =
         cs.dropLast.flatten ++ (cs.getLast hne).take (ke * g.B + ce - a * g.fileBytes) := by
       rw [hflat2, take_append_ge _ _ _ (by rw [hinitflat]; exact hW1), hinitflat]
-    have h2 : cs.flatten.take (ke * g.B + ce) =
-        (layoutBufs g 0 (untag afs)).flatten ++ zeros (ke * g.B + ce - endPos g 0 (untag afs)) := by
-      rw [hflat, take_append_ge _ _ _ (by rw [hE]; exact hW0), hE, take_zeros]
-      congr 2
-      rw [Nat.add_mul, Nat.one_mul] at hNB
-      omega
-    rw [← h1, h2]
+    rw [← h1, htakeW0]
   have hPlen : (cs.dropLast.flatten ++ (cs.getLast hne).take (ke * g.B + ce - a * g.fileBytes)).length =
       ke * g.B + ce := by
     rw [List.length_append, hinitflat, List.length_take, hcllen]
     omega
-  have hgs'afs : afs = lead ++ gs'.flatMap (·.2) := by rw [g1]; exact hafs
+  have hgs'ais : ais = lead ++ gs'.flatMap (·.2) := by rw [g1]; exact hais
+  have hLa : (cs.dropLast.length + 1) * g.fileBytes = cs.length * g.fileBytes := by rw [hinitlen, ha]
   refine ⟨(liveOf gs').map (·.1), _, io, cs.dropLast, (cs.getLast hne).take (ke * g.B + ce - a * g.fileBytes), x,
-    afs, lead, gs', hrec, ⟨⟨?_, hinitfull, ?_, ?_, ?_, ?_⟩, ⟨?_, hfits, htag, ?_⟩, hgs'afs, hlead, ?_, g2⟩,
-    hr1, hab, rfl, hJ'rel, ?_⟩
+    res, ais, lead, gs', hrec, ⟨⟨?_, hinitfull, ?_, ?_, ?_, ?_⟩, ⟨?_, hfits, htag, ?_, by rw [hLa]; exact hjok⟩, ?_,
+    hgs'ais, hlead, ?_, g2⟩, hr1, hab, rfl, hJ'rel, ?_⟩
   · -- the image
     show X = _
     simp only [he]
@@ -259,7 +318,7 @@ theorem read_diskX (g : Geom) (hB : g.B ≤ 65542) {X : Image} {F : Nat} {J : Li
   · show _ = e.idx * g.B + e.cursor
     rw [he]; simp only
     rw [hoff, List.length_take, hcllen]; omega
-  · show e.idx * g.B + e.cursor ≤ _
+  · show e.idx * g.B + e.cursor + res.length ≤ _
     rw [he]; simp only
     rw [hoff]; exact ho_le
   · show X.map (·.1) = _
@@ -272,6 +331,7 @@ theorem read_diskX (g : Geom) (hB : g.B ≤ 65542) {X : Image} {F : Nat} {J : Li
     rw [he, hcur, hinitlen]
   · rw [hPlen, htakeW]
   · rw [hPlen]; exact hW3
+  · rw [hPlen, hLa]; exact hresW
   · symm
     rw [List.filter_eq_self]
     intro j hj
@@ -285,193 +345,11 @@ theorem read_diskX (g : Geom) (hB : g.B ≤ 65542) {X : Image} {F : Nat} {J : Li
     rw [← hmap] at hb
     obtain ⟨s, hs, rfl⟩ := List.mem_map.mp hb
     obtain ⟨t0, ht0, htl, _⟩ := live_tags hok hs
-    obtain ⟨h, _, h2', h3⟩ := tag_pos g F afs 0 htag t0 (by rw [hafs]; exact List.mem_append_right _ ht0)
+    obtain ⟨h, _, h2', h3⟩ := tag_pos g F (tfs ais) 0 htag t0 (by rw [hais, tfs_append]; exact List.mem_append_right _ ht0)
+    have h2'' : h + 7 ≤ endPos g 0 (frs ais) := h2'
     have : h / g.fileBytes < a + 1 := by
       rw [Nat.div_lt_iff_lt_mul hfb]; omega
     rw [h2, ← htl, h3]
     omega
-
-/-! ### reading a torn tape, up to the file handles -/
-
-/-- a proper prefix of the frames of an entry delivers nothing -/
-theorem assemble_partF (part : List TFrm) : ∀ (b : Bool) (rest : List Frm) (st : AsmSt) (evs : List RdEv),
-    rest ≠ [] → EntryFrames b (untag part ++ rest) → (b = true ∨ st.within = true) →
-    ∃ st', assemble st (evsOf part ++ evs) = assemble st' evs := by
-  induction part with
-  | nil => intro b rest st evs _ _ _; exact ⟨st, by simp [evsOf]⟩
-  | cons a part ih =>
-    intro b rest st evs hrest hE hw
-    obtain ⟨f, t, p⟩ := a
-    simp only [untag, List.map_cons, List.cons_append] at hE
-    obtain ⟨ht, htail⟩ := hE
-    have hne : List.map (fun x : TFrm => x.2) part ++ rest ≠ [] := by simp [hrest]
-    have hemp : (List.map (fun x : TFrm => x.2) part ++ rest).isEmpty = false := by simpa using hne
-    simp only [hemp] at ht
-    have hlast : t.isLast = false := by rw [ht]; cases b <;> rfl
-    have hfirst : t.isFirst = b := by rw [ht]; cases b <;> rfl
-    have hw2 : (st.within || t.isFirst) = true := by
-      rw [hfirst]; rcases hw with h | h <;> simp [h]
-    rw [evsOf_cons, List.cons_append, assemble_more st f t p _ hlast hw2]
-    exact ih false rest { within := true, buf := (if t.isFirst then [] else st.buf) ++ p, attr := st.attr } evs
-      hrest (htail hne) (Or.inr rfl)
-
-/-- **scanning a crash tape of groups** -/
-theorem crash_scanX (g : Geom) (hB : g.B ≤ 65542) (F : Nat) (cs : List Bytes) (hne : cs ≠ [])
-    (hfull : ∀ c ∈ cs, c.length = g.fileBytes)
-    (afs : List TFrm) (hfits : Fits g 0 (untag afs)) (htag : Tagged g F 0 afs)
-    (lead : List TFrm) (gs : List Grp) (hafs : afs = lead ++ gs.flatMap (·.2))
-    (hlead : ∀ a ∈ lead, a.2.1.isFirst = false) (hok : ∀ y ∈ gs, GrpOK y)
-    (m z : Nat) (hm : m ≤ endPos g 0 (untag afs))
-    (hflat : cs.flatten = (layoutBufs g 0 (untag afs)).flatten.take m ++ zeros z)
-    (jold : Nat) (hjold : jold ≤ gs.length)
-    (hold : endPos g 0 (untag (lead ++ (gs.take jold).flatMap (·.2))) ≤ m)
-    (htorn : ∀ fs1 t p fs2, untag afs = fs1 ++ (t, p) :: fs2 → m < endPos g 0 (fs1 ++ [(t, p)]) → TornFrame t p) :
-    ∃ (j1 : Nat) (tailEvs : List RecEv) (evs : List RdEv) (e : EndPos) (J'' : List JE), jold ≤ j1 ∧ j1 ≤ gs.length ∧
-      scanAt g F cs.flatten (cs.length * g.K) 0 0 = (evs, e) ∧
-      (tailEvs = [] ∨ tailEvs = [RecEv.corrupt]) ∧
-      assemble { within := false, buf := [], attr := F } evs = entriesEv J'' ++ tailEvs ∧
-      All2 (ReAttr F) J'' (liveOf (gs.take j1)) := by
-  have hB7 := G.Bpos g
-  have hNpos : 0 < cs.length * g.K := Nat.mul_pos (List.length_pos_iff.mpr hne) g.hK
-  have hSlen : cs.flatten.length = cs.length * g.K * g.B := by
-    rw [flatten_length_full _ _ hfull, mul_fb]
-  have hL : (layoutBufs g 0 (untag afs)).flatten.length = endPos g 0 (untag afs) := layout0_len g _ hfits
-  have hz : z = cs.length * g.K * g.B - m := by
-    have := congrArg List.length hflat
-    rw [hSlen] at this
-    simp only [List.length_append, List.length_take, length_zeros, hL] at this
-    omega
-  have hmN : m ≤ cs.length * g.K * g.B := by
-    have := congrArg List.length hflat
-    rw [hSlen] at this
-    simp only [List.length_append, List.length_take, length_zeros, hL] at this
-    omega
-  obtain ⟨n1, C, e, hn1, hscan, hC, hmono⟩ := torn_scan g hB F (cs.length * g.K) hNpos (untag afs) hfits m hm hmN
-    htorn cs.flatten (by rw [hflat, hz])
-  rw [tagFrom_of_Tagged g F afs 0 htag] at hscan
-  have hleadlen : lead.length ≤ n1 := by
-    have h0 := hmono lead.length (by rw [hafs]; simp [untag]) (by
-      have h1 : (untag afs).take lead.length = untag lead := by
-        rw [hafs, untag_append]; simp [untag]
-      rw [h1]
-      have := endPos_mono g 0 (untag lead) (untag ((gs.take jold).flatMap (·.2)))
-      rw [← untag_append] at this
-      omega)
-    exact h0
-  obtain ⟨j, part, hj, htake, hpart, hjmono⟩ := take_flatMap_groups (fun s : Grp => s.2) gs (n1 - lead.length)
-  have hafstake : afs.take n1 = lead ++ ((gs.take j).flatMap (·.2) ++ part) := by
-    rw [hafs, List.take_append, List.take_of_length_le hleadlen, htake]
-  have hjold1 : jold ≤ j := by
-    apply hjmono jold hjold
-    have h0 := hmono (lead.length + ((gs.take jold).flatMap (·.2)).length) (by
-      rw [hafs]
-      simp only [untag, List.length_map, List.length_append]
-      have : ((gs.take jold).flatMap (·.2)).length ≤ (gs.flatMap (·.2)).length := by
-        conv => rhs; rw [← List.take_append_drop jold gs, List.flatMap_append, List.length_append]
-        omega
-      omega) (by
-      have h1 : (untag afs).take (lead.length + ((gs.take jold).flatMap (·.2)).length) =
-          untag (lead ++ (gs.take jold).flatMap (·.2)) := by
-        rw [hafs]
-        conv => lhs; rw [← List.take_append_drop jold gs, List.flatMap_append, ← List.append_assoc,
-          untag_append]
-        rw [List.take_left']
-        simp [untag]
-      rw [h1]; exact hold)
-    omega
-  have hokj : ∀ y ∈ gs.take j, GrpOK y := fun y hy => hok y (List.mem_of_mem_take hy)
-  -- tags of the groups read
-  have hmonoA := tags_mono g F afs 0 htag
-  have hsubl : ((gs.take j).flatMap (·.2)).Sublist afs := by
-    rw [hafs]
-    refine List.Sublist.trans ?_ (List.sublist_append_right _ _)
-    conv => rhs; rw [← List.take_append_drop j gs, List.flatMap_append]
-    exact List.sublist_append_left _ _
-  have hasm : ∃ (tailEvs : List RecEv) (J'' : List JE), (tailEvs = [] ∨ tailEvs = [RecEv.corrupt]) ∧
-      assemble { within := false, buf := [], attr := F } (evsOf (afs.take n1) ++ C) =
-        entriesEv J'' ++ tailEvs ∧ All2 (ReAttr F) J'' (liveOf (gs.take j)) := by
-    rw [hafstake, evsOf_append, List.append_assoc, assemble_lead _ rfl lead _ hlead, evsOf_append,
-      List.append_assoc]
-    obtain ⟨gs', st', _, _, g3, g4⟩ := asm_groups F (gs.take j) { within := false, buf := [], attr := F }
-      (evsOf part ++ C) hokj (hmonoA.sublist hsubl)
-      (by
-        intro a ha
-        obtain ⟨h, _, _, h3⟩ := tag_pos g F afs 0 htag a (hsubl.subset ha)
-        show F ≤ a.1
-        rw [h3]; exact Nat.le_add_right _ _)
-      (Nat.le_refl _)
-    rw [g4]
-    have hp : ∃ st'', assemble st' (evsOf part ++ C) = assemble st'' C := by
-      rcases hpart with h | ⟨y, rest, hy, hrest, hf⟩
-      · subst h; exact ⟨st', by simp [evsOf]⟩
-      · have hym : y ∈ gs := List.mem_of_getElem? hy
-        have hoky := hok y hym
-        obtain ⟨oj, fs⟩ := y
-        simp only at hf
-        have hrest' : untag rest ≠ [] := by simpa [untag] using hrest
-        cases oj with
-        | some j0 =>
-          have hfr : EntryFrames true (untag fs) := (show SegOK (j0, fs) from hoky).frames
-          rw [hf, untag_append] at hfr
-          exact assemble_partF part true (untag rest) st' C hrest' hfr (Or.inl rfl)
-        | none =>
-          obtain ⟨more, hmore, hfr⟩ := hoky
-          simp only at hfr
-          rw [hf, untag_append, List.append_assoc] at hfr
-          exact assemble_partF part true (untag rest ++ more) st' C (by simp [hmore]) hfr (Or.inl rfl)
-    obtain ⟨st'', hst''⟩ := hp
-    rw [hst'']
-    rcases hC with h | ⟨f, h⟩
-    · subst h; exact ⟨[], _, Or.inl rfl, by simp [assemble], g3⟩
-    · subst h; exact ⟨[RecEv.corrupt], _, Or.inr rfl, by simp [assemble], g3⟩
-  obtain ⟨tailEvs, J'', htail, hasm, hrel⟩ := hasm
-  exact ⟨j, tailEvs, _, e, J'', hjold1, hj, hscan, htail, hasm, hrel⟩
-
-/-- **reading a crash tape of groups** -/
-theorem crash_readX (g : Geom) (hB : g.B ≤ 65542) (F : Nat) (cs : List Bytes) (hne : cs ≠ [])
-    (hfull : ∀ c ∈ cs, c.length = g.fileBytes) (X : Image)
-    (hX : X = imgOf F cs ∨ X = imgOf F cs ++ [(F + cs.length, [])])
-    (afs : List TFrm) (hfits : Fits g 0 (untag afs)) (htag : Tagged g F 0 afs)
-    (lead : List TFrm) (gs : List Grp) (hafs : afs = lead ++ gs.flatMap (·.2))
-    (hlead : ∀ a ∈ lead, a.2.1.isFirst = false) (hok : ∀ y ∈ gs, GrpOK y)
-    (hloc : ∀ s ∈ liveOf gs, C07.WF s.1.e ∧ F ≤ s.1.loc)
-    (qf : MemQueues) (hrep : replayJ F [] ((liveOf gs).map (·.1)) = some qf)
-    (m z : Nat) (hm : m ≤ endPos g 0 (untag afs))
-    (hflat : cs.flatten = (layoutBufs g 0 (untag afs)).flatten.take m ++ zeros z)
-    (jold : Nat) (hjold : jold ≤ gs.length)
-    (hold : endPos g 0 (untag (lead ++ (gs.take jold).flatMap (·.2))) ≤ m)
-    (htorn : ∀ fs1 t p fs2, untag afs = fs1 ++ (t, p) :: fs2 → m < endPos g 0 (fs1 ++ [(t, p)]) → TornFrame t p)
-    (policy : Policy) :
-    ∃ j1 qs lp e0 io, jold ≤ j1 ∧ j1 ≤ gs.length ∧
-      replayJ F [] ((liveOf (gs.take j1)).map (·.1)) = some qs ∧
-      recoverPre g X policy none = .ok (lp, e0, io) ∧ AbsEq qs lp.queues := by
-  obtain ⟨j, tailEvs, evs, e, J'', hjold1, hj, hscan, htail, hasm, hrel⟩ := crash_scanX g hB F cs hne hfull afs
-    hfits htag lead gs hafs hlead hok m z hm hflat jold hjold hold htorn
-  have hsplit : (liveOf gs).map (·.1) = (liveOf (gs.take j)).map (·.1) ++ (liveOf (gs.drop j)).map (·.1) := by
-    rw [← List.map_append, ← liveOf_append, List.take_append_drop]
-  obtain ⟨qs, hqs⟩ := replayJ_prefix F _ _ [] qf (by rw [← hsplit]; exact hrep)
-  have hlocj : ∀ s ∈ liveOf (gs.take j), C07.WF s.1.e ∧ F ≤ s.1.loc := by
-    intro s hs
-    apply hloc s
-    rw [← List.take_append_drop j gs, liveOf_append]
-    exact List.mem_append_left _ hs
-  have hJwf : ∀ j' ∈ J'', C07.WF j'.e ∧ F ≤ j'.attr ∧ j'.attr ≤ j'.loc := by
-    intro j' hj'
-    obtain ⟨s, hs, h1, _, h3, h4⟩ := hrel.mem_left j' hj'
-    exact ⟨by rw [h1]; exact (hlocj s hs).1, h3, h4⟩
-  obtain ⟨r1, hr1, hab⟩ := replayJ_abs F J'' ((liveOf (gs.take j)).map (·.1)) [] [] qs
-    (All2.map_right (R := fun a b : JE => a.e = b.e) (fun s : Seg => s.1) (hrel.imp (fun a b h => h.1)))
-    (fun j' hj' => by have := hJwf j' hj'; omega)
-    (fun j' hj' => by
-      obtain ⟨s, hs, rfl⟩ := List.mem_map.mp hj'
-      exact (hlocj s hs).2)
-    (AbsEq.refl _) QsWF.nil QsWF.nil hqs
-  have hreplay : replay [] (assemble { within := false, buf := [], attr := F } evs) = some r1 := by
-    rw [hasm]
-    rcases htail with h | h
-    · subst h; rw [List.append_nil, replay_entriesEv F _ [] hJwf, hr1]
-    · subst h; rw [replay_snoc_corrupt, replay_entriesEv F _ [] hJwf, hr1]
-  obtain ⟨lp, e0, io, hrec, hq⟩ := recoverPre_of_scan g F cs hne hfull X hX policy _ e r1 hscan hreplay
-  exact ⟨j, qs, lp, e0, io, hjold1, hj, hqs, hrec, by rw [hq]; exact hab⟩
 
 end MRL.L
